@@ -13,7 +13,7 @@ import pennylane as qp
 
 from vf.common import Plan, Obligation, Outcome, DISCHARGED, REFUTED, REPO
 from vf.symx.oblig import identity_obligation, lemma_obligation, unitary_lhs, float_constants_log
-from vf.symx.scalar import sym, Sym, poly_matrix, pm_eye
+from vf.symx.scalar import sym, symarray, Sym, poly_matrix, pm_eye
 from refs import gates as G
 
 PNAMES = ["a", "b", "c"]
@@ -27,7 +27,7 @@ FIXED = ["Identity", "PauliX", "PauliY", "PauliZ", "Hadamard", "S", "T", "SX", "
 
 # batched kernels that cast an object array to complex128 (np.asarray(...).astype(complex)) cannot carry symbolic
 # scalars: outside reach, covered by a labelled bounded stand-in only
-BATCH_OUT_OF_REACH = {"FermionicSWAP"}
+BATCH_OUT_OF_REACH = set()
 
 
 def relfile(cls):
@@ -103,11 +103,7 @@ def build(tier, seed):
             bnames = [f"{n}{k}" for n in names for k in (0, 1)]
 
             def traced_b(S, cls=cls, names=names):
-                args = []
-                for n in names:
-                    arr = np.empty(2, dtype=object)
-                    arr[0], arr[1] = S[n + "0"], S[n + "1"]
-                    args.append(arr)
+                args = [symarray([S[n + "0"], S[n + "1"]]) for n in names]
                 return np.asarray(cls.compute_matrix(*args), dtype=object)
 
             def reference_b(S, ref=ref, names=names):
@@ -176,7 +172,6 @@ def build(tier, seed):
     plan.add(Obligation("C02/docstring:DoubleExcitation-family-sign-convention", "doc-consistency",
                         _doc_sign_check, func=("pennylane/ops/qubit/qchem_ops.py", "DoubleExcitationPlus"),
                         sample="docstring basis-state map has the sign pattern of the reference table"))
-    plan.unverified.append("batched FermionicSWAP.compute_matrix (cast_like(array, 1j) forces complex128): bounded stand-in only")
     plan.size_bounds = [f"MultiRZ wires<= {n_var}", f"PauliRot words of length <= {2 if tier == 'quick' else 3}",
                         f"MultiControlledX controls <= {n_var} (all control values)", "GlobalPhase/Identity wires <= 2",
                         "broadcast batch size 2", "one permuted wire placement per multi-wire gate"]
